@@ -117,7 +117,14 @@ def build_and_account(ctx, mod):
     res = {"obligations": len(names), "discharged": 0, "names": names, "assumptions": {}, "problems": problems,
            "build_s": 0.0}
     if any(p["kind"] == "translator" for p in problems):
-        # the generated files may be stale or missing; the theorems are not re-checked against the code
+        # The generated files may be stale or missing, so the theorems are NOT re-checked against what the
+        # code says now (discharged stays 0).  Still build whatever builds from the previous Gen files, so
+        # that the model remains executable for the correspondence / failing-input search.
+        try:
+            coqrun.make(["-k", f"Props/{pid}.vo", "Common/Corr.vo"] + list(getattr(mod, "EXTRA_TARGETS", [])),
+                        timeout=int(os.environ.get("VERIF_MAKE_TIMEOUT", "3000")))
+        except Exception:
+            pass
         return res
     ok, out, dt = coqrun.make([f"Props/{pid}.vo", "Common/Corr.vo"] + list(getattr(mod, "EXTRA_TARGETS", [])), timeout=int(os.environ.get("VERIF_MAKE_TIMEOUT", "3000")))
     res["build_s"] = dt
